@@ -616,33 +616,54 @@ impl Space {
                 }
                 // the same sequence with every non-empty subset of its operands written as literals of
                 // the bound values: the value must not depend on which operands the compiler can see
-                if !has_postfix {
-                    let env: Vec<(&str, V)> = vec![("a", V::Int(7)), ("b", V::Int(3)), ("c", V::Int(2)), ("d", V::Int(5)), ("e", V::Int(11))];
-                    if let Some(want) = reval(rt, &env) {
+                // two environments: small ints (e spelled as the hex literal 0x1e), and boundary values
+                // (minimum and maximum int, a uint, 2^32) where a regrouping changes overflow behaviour
+                let lit_envs: [Vec<(&str, V)>; 2] = [
+                    vec![("a", V::Int(7)), ("b", V::Int(3)), ("c", V::Int(2)), ("d", V::Int(5)), ("e", V::Int(30))],
+                    vec![("a", V::Int(i64::MIN)), ("b", V::Int(i64::MAX)), ("c", V::Int(1)), ("d", V::UInt(0)), ("e", V::Int(1 << 32))],
+                ];
+                for (ei, env) in lit_envs.iter().enumerate() {
+                    if has_postfix {
+                        break;
+                    }
+                    if let Some(want) = reval(rt, env) {
                         let positions: Vec<usize> = toks.iter().enumerate().filter(|(_, t)| NAMES.contains(&t.as_str())).map(|(i, _)| i).collect();
                         for mask in 1u32..(1 << positions.len()) {
                             let mut lt = toks.clone();
                             for (bit, p) in positions.iter().enumerate() {
                                 if mask & (1 << bit) != 0 {
-                                    let v = &env.iter().find(|(n, _)| *n == lt[*p]).unwrap().1;
-                                    lt[*p] = v.lit().unwrap();
+                                    let name = lt[*p].clone();
+                                    let v = &env.iter().find(|(n, _)| *n == name).unwrap().1;
+                                    lt[*p] = match v {
+                                        // one operand in hexadecimal, ending in the digit e
+                                        V::Int(30) => "0x1e".to_string(),
+                                        // the minimum int has no unparenthesised literal spelling as an operand
+                                        V::Int(i) if *i == i64::MIN => "(-9223372036854775808)".to_string(),
+                                        other => other.lit().unwrap(),
+                                    };
                                 }
                             }
-                            let src = join(&lt, 1);
-                            let got = real::eval(&src, &env);
-                            acc.eval();
-                            let ok = match (&want, &got) {
-                                (RV::Fail, Outcome::Fail(..)) => true,
-                                (RV::Val(v), o) => matches!(o.value(), Some(g) if g.same(v)),
-                                _ => false,
-                            };
-                            if !ok {
-                                acc.violation(
-                                    &format!("[{}] evaluation-differs-from-reference-tree with literal operands", root),
-                                    json!({"src": src, "bindings": "a=7 b=3 c=2 d=5 e=11", "reference_tree": rt.show()}),
-                                    format!("{:?}", want),
-                                    got.show(),
-                                );
+                            // with blanks, without any, and with newline-tab runs between the tokens
+                            for ws in 0..3 {
+                                let src = join(&lt, [1, 0, 2][ws]);
+                                let got = real::eval(&src, env);
+                                acc.eval();
+                                let ok = match (&want, &got) {
+                                    (RV::Fail, Outcome::Fail(..)) => true,
+                                    (RV::Val(v), o) => matches!(o.value(), Some(g) if g.same(v)),
+                                    _ => false,
+                                };
+                                if !ok {
+                                    acc.violation(
+                                        &format!("[{}] evaluation-differs-from-reference-tree with literal operands ({}{})", root, ["small ints", "boundary values"][ei], ["", ", no blanks", ", newline-tab runs"][ws]),
+                                        json!({"src": src, "bindings": env.iter().map(|(k, v)| json!([k, v.show()])).collect::<Vec<_>>(), "reference_tree": rt.show()}),
+                                        format!("{:?}", want),
+                                        got.show(),
+                                    );
+                                }
+                                if ei == 1 && ws == 0 {
+                                    break; // layouts are varied for the first environment only
+                                }
                             }
                         }
                     }
@@ -694,7 +715,7 @@ pub fn run(t: Tier) -> i32 {
     let mut rep = Report::new(ID, t, "exploration");
     let sp = Space::new(t);
     rep.rule = format!(
-        "sequences: every flat sequence operand (op operand)^k for k <= {} over the 14 binary operators and `?`/`:` (16 symbols), plain, with every non-empty decoration (5 prefix runs: none ! !! - -- x 6 postfix chains: none .f [i] (y) .f(y)[i] (y,z)) on one operand at a time, and for k <= {} on all operands at once; each sequence is parsed by an independent table-driven reference parser (levels: ?: right-nesting in the else branch, ||, &&, relations incl. in, + -, * / %, prefix runs, postfix chains; equal levels group left) and rendered 9 ways (as is / every operator node parenthesised / doubly parenthesised x no blanks / single blanks / newline-tab runs); the canonical form of Program::ast() must equal the reference tree in every rendering and the value under an int and a bool environment - also with every subset of the operands written as literals - must equal the reference evaluation of the reference tree; sequences the grammar gives no structure (unbalanced or nested ?: without parentheses) must be rejected. Non-trivial = every sequence; distinct by index",
+        "sequences: every flat sequence operand (op operand)^k for k <= {} over the 14 binary operators and `?`/`:` (16 symbols), plain, with every non-empty decoration (5 prefix runs: none ! !! - -- x 6 postfix chains: none .f [i] (y) .f(y)[i] (y,z)) on one operand at a time, and for k <= {} on all operands at once; each sequence is parsed by an independent table-driven reference parser (levels: ?: right-nesting in the else branch, ||, &&, relations incl. in, + -, * / %, prefix runs, postfix chains; equal levels group left) and rendered 9 ways (as is / every operator node parenthesised / doubly parenthesised x no blanks / single blanks / newline-tab runs); the canonical form of Program::ast() must equal the reference tree in every rendering and the value under an int and a bool environment - also with every subset of the operands written as literals (small ints incl. a hexadecimal literal ending in e, in three layouts; and boundary values: minimum/maximum int, a uint, 2^32) - must equal the reference evaluation of the reference tree; sequences the grammar gives no structure (unbalanced or nested ?: without parentheses) must be rejected. Non-trivial = every sequence; distinct by index",
         sp.maxk, sp.full_deco_k
     );
     rep.run_family(Family::new("sequences", sp.size(), |i, a| sp.run(i, a)));
